@@ -31,6 +31,7 @@ let parse_header h =
 
 let parse_op o =
   match o with
+  | ["G"; _] -> failwith "G"
   | "P" :: e :: sz :: np :: ps ->
     if List.length ps <> int_of_string np then failwith "bad parents";
     OpPush (n_of_tok e, List.map n_of_tok ps, n_of_tok sz)
@@ -69,15 +70,52 @@ let reached log =
     | _ :: r -> go pend r
   in go [] log
 
+(* concurrent histories (an op "G n"): the observation starts with L.<script push indices in
+   linearised order>; the pushes are replayed in that order (non-push ops are barriers and keep
+   their places).  Total() after a push is not observable there: D tokens carry "?"; for the
+   executable specification the missing numbers are filled with pushed-released / 0, so that
+   T1, T2, T3 (released at most once, exactly once after Clear) and T5 are checked but T4 and the
+   count clause of T3 are not. *)
+let is_push = function OpPush _ -> true | _ -> false
+let reorder ops perm =
+  let pushes = Array.of_list (List.filter is_push ops) in
+  let perm = Array.of_list perm in
+  if Array.length perm <> Array.length pushes then failwith "bad linearisation";
+  let k = ref 0 in
+  List.map (fun o -> if is_push o then begin let p = pushes.(perm.(!k)) in incr k; p end else o) ops
+
+let conc_tok t =
+  match String.split_on_char '.' t with
+  | ["D"; c; ok; _; _] -> Printf.sprintf "D.%s.%s.?.?" c ok
+  | _ -> t
+
+let fill_unknown obs =
+  let pushed = ref 0 and released = ref 0 in
+  List.map (fun t ->
+    match String.split_on_char '.' t with
+    | ["D"; c; ok; "?"; "?"] -> incr pushed; Printf.sprintf "D.%s.%s.%d.0" c ok (!pushed - !released)
+    | "R" :: _ -> incr released; t
+    | _ -> t) obs
+
 let eval inp obs =
   let groups = split_on ";" inp in
   let header, ops = (match groups with h :: r -> h, r | [] -> failwith "empty") in
   let (ln, ls, tc, tp) = parse_header header in
-  let ops = List.map parse_op ops in
+  let concurrent = List.exists (fun o -> match o with ["G"; _] -> true | _ -> false) ops in
+  let ops = List.map parse_op (List.filter (fun o -> match o with ["G"; _] -> false | _ -> true) ops) in
+  let ltok, obs_rest, ops =
+    if not concurrent then [], obs, ops else
+    (match obs with
+     | l :: rest when String.length l >= 2 && String.sub l 0 2 = "L." ->
+       let body = String.sub l 2 (String.length l - 2) in
+       let perm = if body = "" then [] else List.map int_of_string (String.split_on_char '_' body) in
+       [l], rest, reorder ops perm
+     | _ -> [], obs, ops) in
   let s = run_tbl true tc tp ln ls ops in
   let mlog = List.rev (log s) in
-  let mobs = List.map tok_of_out mlog @ (if oof s then ["OOF"] else []) in
-  let ilog = (try Some (List.map out_of_tok obs) with _ -> None) in
+  let mtoks = List.map tok_of_out mlog in
+  let mobs = ltok @ (if concurrent then List.map conc_tok mtoks else mtoks) @ (if oof s then ["OOF"] else []) in
+  let ilog = (try Some (List.map out_of_tok (if concurrent then fill_unknown obs_rest else obs_rest)) with _ -> None) in
   let spec_ok, note =
     (match ilog with
      | None -> Some false, "unparsable-observation"
